@@ -8,6 +8,7 @@ import (
 	"github.com/ClickHouse/ch-go/proto"
 
 	"verif/checks/seq/reg"
+	"verif/checks/seq/regtab"
 	"verif/refcol"
 	"verif/refwire"
 	"verif/vk"
@@ -81,7 +82,7 @@ func c19Types(quick bool) []string {
 		}
 	}
 	var base []string
-	for _, e := range reg.Generated {
+	for _, e := range regtab.Generated {
 		if e.Depth == 0 {
 			base = append(base, string(e.New().Type()))
 		}
@@ -276,11 +277,11 @@ func C19(c *vk.Ctx) {
 			{"Array(String)", "Array(UInt8)", true}, {"Nullable(String)", "Nullable(UInt8)", true}, {"LowCardinality(String)", "LowCardinality(FixedString(3))", true},
 			{"Enum8('a' = 1)", "Int16", true}, {"Enum16('a' = 1)", "Int8", true}, {"FixedString(2)", "FixedString(3)", true}, {"Decimal(9, 2)", "Decimal64", true}, {"Decimal(10, 2)", "Decimal32", true},
 		}
-		for _, e := range reg.Generated {
+		for _, e := range regtab.Generated {
 			if e.Depth != 0 {
 				continue
 			}
-			for _, f := range reg.Generated {
+			for _, f := range regtab.Generated {
 				if f.Depth != 0 {
 					continue
 				}
